@@ -729,7 +729,7 @@ func getLength(token Token, negative, percentage bool) pr.Dimension {
 			return pr.PercToD(token.ValueF)
 		}
 	case pa.Dimension:
-		unit, isKnown := LENGTHUNITS[string(token.Unit)]
+		unit, isKnown := LENGTHUNITS[utils.AsciiLower(token.Unit)]
 		if isKnown && (negative || token.ValueF >= 0) {
 			return pr.NewDim(pr.Float(token.ValueF), unit)
 		}
@@ -744,7 +744,7 @@ func getLength(token Token, negative, percentage bool) pr.Dimension {
 // Return the value in radians of an <angle> token, or None.
 func getAngle(token Token) (utils.Fl, bool) {
 	if dim, ok := token.(pa.Dimension); ok {
-		unit, in := AngleUnits[string(dim.Unit)]
+		unit, in := AngleUnits[utils.AsciiLower(dim.Unit)]
 		if in {
 			return dim.ValueF * ANGLETORADIANS[unit], true
 		}
@@ -755,7 +755,7 @@ func getAngle(token Token) (utils.Fl, bool) {
 // Return the value in dppx of a <resolution> token, or false.
 func getResolution(token Token) (utils.Fl, bool) {
 	if dim, ok := token.(pa.Dimension); ok {
-		factor, in := RESOLUTIONTODPPX[string(dim.Unit)]
+		factor, in := RESOLUTIONTODPPX[utils.AsciiLower(dim.Unit)]
 		if in {
 			return dim.ValueF * factor, true
 		}
